@@ -447,7 +447,8 @@ class FieldStorage:
                 self.ctype = header.value
 
         if self.name is None:
-            raise BodyParsingError(f'Noname field found while parsing multipart/formdata body: {header_raw}')
+            # (the loop variable is unbound when the header block is empty)
+            raise BodyParsingError(f'Noname field found while parsing multipart/formdata body: {headers_raw}')
 
         if self.filename is not None:
             self.file = BytesIOProxy(src, *data_section)
